@@ -134,6 +134,8 @@ def instances(tier, seed):
     add("rt:frac:t3:bond+angle-extra", cell='t3', N=2, terms={'bond': 1, 'angle': 1}, fract=True, extra_angle_only=True, cost=60)
     add("rt:cart:t4:bond+extra", cell='t4', N=2, terms={'bond': 1}, fract=False, extra=True, cost=30)
     add("rt:cart:nocell", cell=None, N=2, terms={}, fract=True, cost=5)
+    # two atom types of the same element (force-field typed structure): labels must still be unique per atom
+    add("rt:frac:o1:two-types-one-element", cell='o1', N=3, terms={'bond': 1, 'angle': 1}, fract=True, typed=True, cost=30)
     add("rt:frac:o2:noterms", cell='o2', N=3, terms={}, fract=True, cost=30)
     add("read:uncertainty+nonP1+boundary", family='read', cost=5)
     if tier == 'thorough':
@@ -165,7 +167,11 @@ def body(ctx, p):
     xl = {}
     if p.get('extra'):
         kw.update(extra_atom_labels=['_atom_site_occupancy', '_atom_site_note'], extra_atom_fields=[[f"0.{i + 1}", f"n{i}"] for i in range(N)])
-    a = Atoms(elements=els, positions=np.zeros((N, 3)), cell=cell, **kw)
+    if p.get('typed'):
+        els = ['C', 'C', 'O'][:N]
+        a = Atoms(atom_types=[0, 1, 2][:N], atom_type_elements=['C', 'C', 'O'], atom_type_labels=['C_R', 'C_3', 'O_2'], positions=np.zeros((N, 3)), cell=cell, **kw)
+    else:
+        a = Atoms(elements=els, positions=np.zeros((N, 3)), cell=cell, **kw)
     a.positions = ctx.arr(pos)
     a.charges = ctx.arr(q)
     ends = {}
@@ -342,9 +348,9 @@ loop_
             c = CifFileObj()
             c['t'] = b
             return io.StringIO(c.WriteOut())
-        good, bad = doc('P 1'), doc('F m -3 m')
+        good, bad, bad2 = doc('P 1'), doc('F m -3 m'), doc('P 1 21/c 1')
     else:
-        good, bad = io.StringIO(cifbody % ('P 1', repr(x))), io.StringIO(cifbody % ('F m -3 m', repr(x)))
+        good, bad, bad2 = io.StringIO(cifbody % ('P 1', repr(x))), io.StringIO(cifbody % ('F m -3 m', repr(x))), io.StringIO(cifbody % ('P 1 21/c 1', repr(x)))
     r = Atoms.load_p1_cif(good)
     ctx.observe('n', len(r.positions))
     with core.nosimplify():
@@ -359,6 +365,12 @@ loop_
     except Exception as ex:
         rejected = 'P1' in str(ex)
     ctx.require('a non-P1 space group is rejected', rejected)
+    try:
+        Atoms.load_p1_cif(bad2)
+        rejected2 = False
+    except Exception as ex:
+        rejected2 = 'P1' in str(ex)
+    ctx.require("a monoclinic symbol that merely starts with 'P 1' is rejected", rejected2)
 
 
 SELFTESTS = [
